@@ -420,9 +420,12 @@ def run(ck):
             r = obsA.get(oi)
             if op[0] == "LC" and r and r.startswith("ok json"):
                 f = r.split(" ", 3)
-                if f[2] not in seen and len(ctxs) < cap:
+                if f[2] not in seen:
                     seen.add(f[2])
-                    ctxs.append((f[3], {"ops": dbengine.trace_to_json(ops[:oi + 1]), "failing_op_index": oi}))
+                    ctxs.append((f[3], (ti, oi)))
+    if len(ctxs) > cap:                                   # evenly over all traces (view profile and timelines)
+        ctxs = [ctxs[(k * len(ctxs)) // cap] for k in range(cap)]
+    ctxs = [(js, {"ops": dbengine.trace_to_json(traces[ti][:oi + 1]), "failing_op_index": oi}) for js, (ti, oi) in ctxs]
     # ... and the boundary contexts
     for js in boundary_contexts(eng.params[0], eng.params[1]):
         ctxs.append((js, {"hand_built_context": True}))
